@@ -443,7 +443,7 @@ theorem dt_ignores_outer_ws (uk : Bool) (ws1 ws2 mid : List Char) (c0 c1 : Char)
   unfold dtStr; rw [String.toList_ofList, strip_wrapped ws1 ws2 mid c0 c1 h1 h2 n0 n1]
 
 /-- in particular a US-written day > 12 text with blanks around it is still rejected by the UK dialect, and vice versa
-(F12: on the unrepaired code these were silently swapped) -/
+(C04-D1: on the unrepaired code these were silently swapped) -/
 theorem rejects_with_outer_ws (y m d : Nat) (hm : 1 ≤ m ∧ m ≤ 12) (hd : 12 < d ∧ d < 100) (hy : y < 10000) (s1 s2 : Char)
     (h1 : isDateSep s1 = true) (h2 : isDateSep s2 = true) (ws1 ws2 : List Char) (w1 : ∀ c ∈ ws1, isWs c = true) (w2 : ∀ c ∈ ws2, isWs c = true) :
     dtStr true (String.ofList (ws1 ++ (pad2 m ++ s1 :: (pad2 d ++ s2 :: (pad4 y ++ []))) ++ ws2)) = some (.error .value)
